@@ -341,7 +341,12 @@ dexkv_matches_p(const_dexkv_t dkv, struct dt_dt_s d)
 		cmp = dt_get_mon(d.d);
 		break;
 	case DT_SPFL_N_DCNT_MON:
-		cmp = dt_get_mday(d.d);
+		if (dkv->sp.bizda) {
+			/* %db, the business day of the month */
+			cmp = dt_get_bday(d.d);
+		} else {
+			cmp = dt_get_mday(d.d);
+		}
 		break;
 	case DT_SPFL_N_DCNT_WEEK:
 	case DT_SPFL_S_WDAY:
